@@ -5,7 +5,7 @@ import ast
 import xml.etree.ElementTree as ET
 
 from ..cells import top_level_classes
-from ..core import AnalysisError, U, calls_in, guards_of, iter_stmts, parent, walk_no_defs
+from ..core import AnalysisError, U, calls_in, enclosing_loops, guards_of, iter_stmts, parent, walk_no_defs
 from ..tables import Tables
 from . import c01
 
@@ -210,13 +210,41 @@ def check(prog, rep):
     inner = [n for n in ast.walk(ah) if isinstance(n, ast.For) and "reference.map" in U(n.iter)]
     if not inner:
         raise AnalysisError("add_hydrogens: loop over residue.reference.map not found")
-    skips = [U(s.test) for s in inner[0].body if isinstance(s, ast.If) and isinstance(s.body[-1], ast.Continue) and len(s.body) == 1]
-    want = ["not atomname.startswith('H')", "residue.has_atom(atomname)", "isinstance(residue, aa.CYS) and (residue.ss_bonded and atomname == 'HG')"]
-    r5.add("skip-set", skips == want, f"continue-guards of the per-hydrogen loop: {skips}", f"pdb2pqr/biomolecule.py:{inner[0].lineno} (add_hydrogens)")
+    def norm(test, pol):
+        while isinstance(test, ast.UnaryOp) and isinstance(test.op, ast.Not):
+            test, pol = test.operand, not pol
+        return U(test), pol
+
+    def silent_exits(loop, closed):
+        """continue/break statements of `loop` that are neither covered by a closed reason nor announced by a warning."""
+        out, n_exit = [], 0
+        for st in iter_stmts(loop.body):
+            if not isinstance(st, (ast.Continue, ast.Break)) or enclosing_loops(st)[:1] != [loop]:
+                continue
+            n_exit += 1
+            gs = {norm(tst, pol) for tst, pol in guards_of(st, loop)}
+            blk = parent(st)
+            sibs = getattr(blk, "body", []) if st in getattr(blk, "body", []) else getattr(blk, "orelse", [])
+            warned = any(U(c.func) in ("_LOGGER.warning", "_LOGGER.error") for x in sibs[: sibs.index(st)] for c in calls_in(x)) if st in sibs else False
+            if not (gs & closed) and not warned:
+                out.append(f"line {st.lineno}: {type(st).__name__.lower()} under {sorted(g for g, _ in gs)[:3]}")
+        return out, n_exit
+
+    closed_h = {("atomname.startswith('H')", False), ("residue.has_atom(atomname)", True),
+                ("isinstance(residue, aa.CYS) and (residue.ss_bonded and atomname == 'HG')", True),
+                ("isinstance(residue, aa.CYS) and residue.ss_bonded and (atomname == 'HG')", True),
+                ("residue.rebuild_tetrahedral(atomname)", True)}  # the last one: the hydrogen has just been built
+    bad_h, n_h = silent_exits(inner[0], closed_h)
+    r5.add("skip-set", not bad_h and n_h >= 3, f"{n_h} exits of the per-hydrogen loop: each is one of the closed reasons (not a hydrogen, already "
+           "present, HG of a bridged cysteine) or is announced by a warning" + (f" -- silent exits: {bad_h}" if bad_h else ""),
+           f"pdb2pqr/biomolecule.py:{inner[0].lineno} (add_hydrogens)")
     outer = [s for s in ah.body if isinstance(s, ast.For) and U(s.iter) == "self.residues"]
-    oskips = [U(s.test) for s in outer[0].body if isinstance(s, ast.If) and isinstance(s.body[-1], ast.Continue)] if outer else []
-    r5.add("residue-skip-set", oskips == ["not isinstance(residue, (aa.Amino, na.Nucleic))", "hlist is not None and reskey in hlist"],
-           f"residue-level continue-guards: {oskips}", f"pdb2pqr/biomolecule.py:{ah.lineno} (add_hydrogens)")
+    if not outer:
+        raise AnalysisError("add_hydrogens: loop over self.residues not found")
+    closed_r = {("isinstance(residue, (aa.Amino, na.Nucleic))", False), ("hlist is not None and reskey in hlist", True)}
+    bad_r, n_r = silent_exits(outer[0], closed_r)
+    r5.add("residue-skip-set", not bad_r and n_r >= 1, f"{n_r} residue-level exits: only non-polymer residues and residues excluded through hlist are skipped"
+           + (f" -- other exits: {bad_r}" if bad_r else ""), f"pdb2pqr/biomolecule.py:{ah.lineno} (add_hydrogens)")
     callers = [(k, U(c)) for k, f in prog.funcs.items() for c in calls_in(f.node) if U(c.func).endswith(".add_hydrogens") and k.split("::")[0] != "run.py"]
     r5.add("hlist-unused", all(txt.endswith("add_hydrogens()") for _, txt in callers) and bool(callers), f"callers: {callers} (no residue is excluded through hlist)",
            "pdb2pqr/main.py")
